@@ -5,7 +5,6 @@ import (
 	"fmt"
 	"go/types"
 	"math"
-	"sort"
 	"strings"
 	"time"
 	"unsafe"
@@ -17,8 +16,9 @@ import (
 type Env struct {
 	pools    map[Ptr][]Value // sync.Pool address -> put objects
 	syncMaps map[Ptr][]MapEntry
-	files    map[string]*FileNode
+	files    []*FileNode
 	fds      []*FD
+	clockFrozen bool
 	clockSym bool
 	clockN   int
 	lastNow  Value // last reading (seconds): *Term(Int) or nil
@@ -28,24 +28,31 @@ type Env struct {
 	removed  []string
 	faultOpen  bool // OpenFile may fail (symbolic choice)
 	faultWrite bool
+	writes     int
 }
 
 type FileNode struct {
+	dir     string
+	name    Value // string or *SymStr
 	content []Value
-	mtime   Value // seconds (uint64 or *Term Int)
+	mtime   Value // seconds (uint64 internal seconds or *Term Int unix seconds)
 	isDir   bool
+	removed bool
 }
 
 type FD struct {
+	node   *FileNode
+	nodeIx int
 	path   string
 	flags  int
 	closed bool
-	std    int // 1 stdout 2 stderr
+	std    int // >0 for the standard streams
 	obj    int32
+	offset int
 }
 
 func newEnv() *Env {
-	return &Env{pools: map[Ptr][]Value{}, syncMaps: map[Ptr][]MapEntry{}, files: map[string]*FileNode{},
+	return &Env{pools: map[Ptr][]Value{}, syncMaps: map[Ptr][]MapEntry{},
 		fixedNow: time.Date(2026, 1, 2, 3, 4, 5, 678000000, time.UTC).UnixNano()}
 }
 
@@ -59,7 +66,7 @@ func (e *Env) clone() *Env {
 	for k, v := range e.syncMaps {
 		c.syncMaps[k] = append([]MapEntry(nil), v...)
 	}
-	c.files = make(map[string]*FileNode, len(e.files))
+	c.files = make([]*FileNode, len(e.files))
 	for k, v := range e.files {
 		n := *v
 		n.content = append([]Value(nil), v.content...)
@@ -68,6 +75,9 @@ func (e *Env) clone() *Env {
 	c.fds = make([]*FD, len(e.fds))
 	for i, f := range e.fds {
 		n := *f
+		if n.nodeIx >= 0 && n.nodeIx < len(c.files) {
+			n.node = c.files[n.nodeIx]
+		}
 		c.fds[i] = &n
 	}
 	c.openLog = append([]string(nil), e.openLog...)
@@ -77,7 +87,9 @@ func (e *Env) clone() *Env {
 
 func (e *Env) stdFile(s *State, fd int) Value {
 	for len(e.fds) <= fd {
-		e.fds = append(e.fds, &FD{std: len(e.fds), path: fmt.Sprintf("/dev/std%d", len(e.fds))})
+		nd := &FileNode{dir: "/dev", name: fmt.Sprintf("std%d", len(e.fds))}
+		e.files = append(e.files, nd)
+		e.fds = append(e.fds, &FD{std: len(e.fds) + 1, path: fmt.Sprintf("/dev/std%d", len(e.fds)), node: nd, nodeIx: len(e.files) - 1})
 	}
 	f := e.fds[fd]
 	if f.obj == 0 {
@@ -345,12 +357,15 @@ func (e *Engine) addEnvIntrinsics() {
 	in := e.intrinsics
 	in["time.Now"] = func(c *callCtx) Value {
 		env := c.s.env
+		if env.clockSym && env.clockFrozen {
+			return mkTime(env.symNow(c), 0)
+		}
 		if env.clockSym {
 			name := c.s.freshName(fmt.Sprintf("now%d", env.clockN))
 			env.clockN++
 			v := mkVar(name, SInt)
 			c.s.inputs = append(c.s.inputs, InputRec{Name: name, Kind: "lia", Vars: []string{name}})
-			lo := Value(mkIntC(0))
+			lo := Value(mkIntC(1 << 30))
 			if env.lastNow != nil {
 				lo = env.lastNow
 			}
@@ -424,6 +439,20 @@ func (e *Engine) addEnvIntrinsics() {
 	}
 	in["(time.Time).Add"] = func(c *callCtx) Value {
 		sec, ns := c.s.timeParts(c.args[0])
+		if dt, ok := c.args[1].(*Term); ok {
+			// symbolic duration (Int-encoded nanoseconds, a whole number of seconds by construction)
+			if dt.Sort != SInt {
+				c.s.unsupported("Time.Add with bit-vector duration")
+			}
+			ds := mkIntBin(OIDiv, dt, mkIntC(1e9))
+			var base *Term
+			if t, ok := sec.(*Term); ok {
+				base = t
+			} else {
+				base = mkIntC(int64(sec.(uint64)) - unixToInternal)
+			}
+			return mkTime(mkIntBin(OAdd, base, ds), 0)
+		}
 		d := int64(c.args[1].(uint64))
 		if t, ok := sec.(*Term); ok {
 			if d%int64(time.Second) != 0 {
@@ -474,41 +503,37 @@ func (e *Engine) addEnvIntrinsics() {
 	// --- os ---
 	in["os.OpenFile"] = func(c *callCtx) Value {
 		env := c.s.env
-		path := c.concreteStr(0)
+		path := c.args[0]
 		flags := c.int(1)
-		env.openLog = append(env.openLog, path)
+		env.openLog = append(env.openLog, c.s.evalDescribe(path))
 		fail := false
 		if env.faultOpen {
 			k := c.s.choose(c.w, 2)
 			c.s.choices = append(c.s.choices, ChoiceRec{"openfault", k})
 			fail = k == 1
 		}
-		dir := path
-		if i := strings.LastIndexByte(path, '/'); i >= 0 {
-			dir = path[:i]
-		} else {
-			dir = "."
-		}
-		if d, ok := env.files[dir]; !fail && (!ok || !d.isDir) {
+		dir, name := splitPath(c, path)
+		if !fail && !env.dirExists(dir) {
 			fail = true
 		}
 		if fail {
-			return Tuple{Ptr{}, c.s.newError("open " + path + ": no such file or directory")}
+			return Tuple{Ptr{}, c.s.newError(strConcat(strConcat("open ", path), ": no such file or directory"))}
 		}
-		f, ok := env.files[path]
-		if !ok {
+		ix := env.find(c, dir, name)
+		if ix < 0 {
 			if flags&0x40 == 0 { // O_CREATE
-				return Tuple{Ptr{}, c.s.newError("open " + path + ": no such file or directory")}
+				return Tuple{Ptr{}, c.s.newError(strConcat(strConcat("open ", path), ": no such file or directory"))}
 			}
-			f = &FileNode{mtime: env.nowSec()}
-			env.files[path] = f
-		} else if f.isDir {
-			return Tuple{Ptr{}, c.s.newError("open " + path + ": is a directory")}
+			env.files = append(env.files, &FileNode{dir: dir, name: name, mtime: env.nowSec()})
+			ix = len(env.files) - 1
+		} else if env.files[ix].isDir {
+			return Tuple{Ptr{}, c.s.newError(strConcat(strConcat("open ", path), ": is a directory"))}
 		}
+		f := env.files[ix]
 		if flags&0x200 != 0 { // O_TRUNC
 			f.content = nil
 		}
-		fd := &FD{path: path, flags: flags}
+		fd := &FD{path: c.s.evalDescribe(path), flags: flags, node: f, nodeIx: ix}
 		fd.obj = c.s.allocMem([]Value{uint64(len(env.fds))})
 		env.fds = append(env.fds, fd)
 		return Tuple{Ptr{ID: fd.obj}, Iface{}}
@@ -533,7 +558,7 @@ func (e *Engine) addEnvIntrinsics() {
 			return Tuple{uint64(0), c.s.newError("write " + fd.path + ": file already closed")}
 		}
 		env := c.s.env
-		if env.faultWrite {
+		if env.faultWrite && fd.std == 0 {
 			k := c.s.choose(c.w, 2)
 			c.s.choices = append(c.s.choices, ChoiceRec{"writefault", k})
 			if k == 1 {
@@ -545,30 +570,23 @@ func (e *Engine) addEnvIntrinsics() {
 		if sl.Len > 0 {
 			data = append(data, c.s.obj(sl.ID).slots[sl.Off:sl.Off+sl.Len]...)
 		}
-		f := env.files[fd.path]
-		if f == nil {
-			// unlinked or std stream
-			f = &FileNode{}
-			env.files[fd.path] = f
-		}
+		f := fd.node
 		if fd.flags&0x400 != 0 || fd.std != 0 { // O_APPEND
 			f.content = append(f.content, data...)
 		} else {
-			// no O_APPEND: writes start at offset 0 of this descriptor (modelled as overwrite from start)
-			if len(data) >= len(f.content) {
-				f.content = data
-			} else {
-				copy(f.content, data)
+			// no O_APPEND: this descriptor writes from its own offset, starting at 0
+			off := fd.offset
+			for len(f.content) < off+len(data) {
+				f.content = append(f.content, uint64(0))
 			}
+			copy(f.content[off:], data)
+			fd.offset += len(data)
 		}
 		f.mtime = env.nowSec()
+		env.writes++
 		return Tuple{uint64(sl.Len), Iface{}}
 	}
 	e.visible["(*os.File).Write"] = true
-	in["(*os.File).WriteString"] = func(c *callCtx) Value {
-		c.s.unsupported("WriteString on os.File")
-		return nil
-	}
 	in["(*os.File).Sync"] = func(c *callCtx) Value {
 		fd := fileOf(c)
 		if fd == nil || fd.closed {
@@ -589,31 +607,20 @@ func (e *Engine) addEnvIntrinsics() {
 	}
 	e.visible["(*os.File).Close"] = true
 	in["os.Remove"] = func(c *callCtx) Value {
-		path := c.concreteStr(0)
 		env := c.s.env
-		path = strings.Replace(path, "//", "/", -1)
-		if _, ok := env.files[path]; !ok {
-			return c.s.newError("remove " + path + ": no such file or directory")
+		dir, name := splitPath(c, c.args[0])
+		ix := env.find(c, dir, name)
+		if ix < 0 {
+			return c.s.newError("remove: no such file or directory")
 		}
-		delete(env.files, path)
-		env.removed = append(env.removed, path)
-		return Iface{}
-	}
-	in["os.MkdirAll"] = func(c *callCtx) Value {
-		c.s.env.files[c.concreteStr(0)] = &FileNode{isDir: true}
+		env.files[ix].removed = true
+		env.removed = append(env.removed, c.s.evalDescribe(c.args[0]))
 		return Iface{}
 	}
 	in["os.ReadDir"] = func(c *callCtx) Value {
 		dir := strings.TrimSuffix(c.concreteStr(0), "/")
 		env := c.s.env
-		var names []string
-		for p := range env.files {
-			if strings.HasPrefix(p, dir+"/") && !strings.Contains(p[len(dir)+1:], "/") {
-				names = append(names, p)
-			}
-		}
-		sort.Strings(names)
-		if d, ok := env.files[dir]; !ok || !d.isDir {
+		if !env.dirExists(dir) {
 			return Tuple{Slice{}, c.s.newError("open " + dir + ": no such file or directory")}
 		}
 		// entries are harness-side objects of type vDirEntry (see harness prelude)
@@ -622,25 +629,188 @@ func (e *Engine) addEnvIntrinsics() {
 			c.s.unsupported("os.ReadDir needs the harness type vDirEntry")
 		}
 		pt := rtypeOf(types.NewPointer(de.Type()))
-		slots := make([]Value, len(names))
-		for i, p := range names {
-			f := env.files[p]
+		var slots []Value
+		for _, f := range env.files {
+			if f.removed || f.dir != dir {
+				continue
+			}
 			ptr := c.s.allocType(de.Type())
 			o := c.s.wobj(ptr.ID)
-			o.slots[0] = p[len(dir)+1:]
+			o.slots[0] = f.name
 			o.slots[1] = f.isDir
 			var mt Value = uint64(0)
 			if f.mtime != nil {
 				mt = f.mtime
 			}
-			o.slots[2] = mkTime(mt, 0)[0]
-			o.slots[3] = mkTime(mt, 0)[1]
-			o.slots[4] = Ptr{}
-			slots[i] = Iface{T: pt, V: ptr}
+			tm := mkTime(mt, 0)
+			o.slots[2], o.slots[3], o.slots[4] = tm[0], tm[1], tm[2]
+			slots = append(slots, Iface{T: pt, V: ptr})
 		}
+		n := len(slots)
 		id := c.s.allocMem(slots)
-		return Tuple{Slice{ID: id, Len: int32(len(names)), Cap: int32(len(names))}, Iface{}}
+		return Tuple{Slice{ID: id, Len: int32(n), Cap: int32(n)}, Iface{}}
 	}
+	// harness-side handles on the environment models
+	for _, p := range []string{logPath + ".", logPath + "/expr."} {
+		in[p+"vFSRoot"] = func(c *callCtx) Value { return "" }
+		in[p+"vFSMkdir"] = func(c *callCtx) Value {
+			c.s.env.files = append(c.s.env.files, &FileNode{dir: "", name: strings.TrimSuffix(c.concreteStr(0), "/"), isDir: true})
+			return nil
+		}
+		in[p+"vFSRmdir"] = func(c *callCtx) Value {
+			d := strings.TrimSuffix(c.concreteStr(0), "/")
+			for _, f := range c.s.env.files {
+				if f.isDir && f.dir == "" && f.name == d {
+					f.removed = true
+				}
+			}
+			return nil
+		}
+		in[p+"vFSAddFile"] = func(c *callCtx) Value {
+			env := c.s.env
+			dir := strings.TrimSuffix(c.concreteStr(0), "/")
+			name := c.args[1]
+			var content []Value
+			if sl, ok := c.args[2].(Slice); ok && sl.Len > 0 {
+				content = append(content, c.s.obj(sl.ID).slots[sl.Off:sl.Off+sl.Len]...)
+			}
+			age := c.args[3]
+			isDir, _ := c.args[4].(bool)
+			var mt Value
+			if env.clockSym {
+				now := env.symNow(c)
+				switch a := age.(type) {
+				case *Term:
+					mt = mkIntBin(OSub, now, a)
+				case uint64:
+					mt = mkIntBin(OSub, now, mkIntC(int64(a)))
+				}
+			} else {
+				a, _ := age.(uint64)
+				mt = uint64(env.fixedNow/1e9 + unixToInternal - int64(a))
+			}
+			env.files = append(env.files, &FileNode{dir: dir, name: name, content: content, mtime: mt, isDir: isDir})
+			return nil
+		}
+		in[p+"vFSExists"] = func(c *callCtx) Value {
+			dir := strings.TrimSuffix(c.concreteStr(0), "/")
+			return c.s.env.find(c, dir, c.args[1]) >= 0
+		}
+		in[p+"vFSRead"] = func(c *callCtx) Value {
+			dir := strings.TrimSuffix(c.concreteStr(0), "/")
+			ix := c.s.env.find(c, dir, c.args[1])
+			if ix < 0 {
+				return Tuple{Slice{}, false}
+			}
+			ct := append([]Value(nil), c.s.env.files[ix].content...)
+			id := c.s.allocMem(ct)
+			return Tuple{Slice{ID: id, Len: int32(len(ct)), Cap: int32(len(ct))}, true}
+		}
+		in[p+"vFSNames"] = func(c *callCtx) Value {
+			dir := strings.TrimSuffix(c.concreteStr(0), "/")
+			var slots []Value
+			for _, f := range c.s.env.files {
+				if !f.removed && f.dir == dir {
+					slots = append(slots, f.name)
+				}
+			}
+			id := c.s.allocMem(slots)
+			return Slice{ID: id, Len: int32(len(slots)), Cap: int32(len(slots))}
+		}
+		in[p+"vFSOpenFDs"] = func(c *callCtx) Value {
+			n := 0
+			for _, fd := range c.s.env.fds {
+				if fd.std == 0 && !fd.closed {
+					n++
+				}
+			}
+			return uint64(n)
+		}
+		in[p+"vFSOpenAttempts"] = func(c *callCtx) Value { return uint64(len(c.s.env.openLog)) }
+		in[p+"vClockMode"] = func(c *callCtx) Value {
+			m := c.int(0)
+			c.s.env.clockSym = m != 0
+			c.s.env.clockFrozen = m == 2
+			return nil
+		}
+		in[p+"vFaults"] = func(c *callCtx) Value {
+			c.s.env.faultOpen = c.int(0) != 0
+			c.s.env.faultWrite = c.int(1) != 0
+			return nil
+		}
+	}
+}
+
+// splitPath splits a (possibly symbolic) path at its last '/', which must be at a concrete position.
+func splitPath(c *callCtx, path Value) (string, Value) {
+	b := strBytes(path)
+	cut := -1
+	for i := len(b) - 1; i >= 0; i-- {
+		switch x := b[i].(type) {
+		case uint64:
+			if x == '/' {
+				cut = i
+			}
+		case *Term:
+			// a symbolic byte equal to '/' would name another directory: excluded by harness assumption
+			if !c.s.assume(c.w, mkNot(mkEq(x, mkBV('/', 8)))) {
+				c.s.finish("INFEASIBLE", "")
+			}
+		}
+		if cut >= 0 {
+			break
+		}
+	}
+	if cut < 0 {
+		return ".", path
+	}
+	dirV := mkStr(b[:cut])
+	dir, ok := dirV.(string)
+	if !ok {
+		c.s.unsupported("symbolic directory part in path")
+	}
+	for strings.HasSuffix(dir, "/") {
+		dir = strings.TrimSuffix(dir, "/")
+	}
+	return dir, mkStr(b[cut+1:])
+}
+
+func (e *Env) dirExists(dir string) bool {
+	for _, f := range e.files {
+		if f.isDir && !f.removed && f.dir == "" && f.name == dir {
+			return true
+		}
+	}
+	return false
+}
+
+// find returns the index of the live entry dir/name, branching on symbolic name comparisons.
+func (e *Env) find(c *callCtx, dir string, name Value) int {
+	for i := 0; i < len(c.s.env.files); i++ {
+		f := c.s.env.files[i]
+		if f.removed || f.dir != dir || (f.isDir && f.dir == "") {
+			continue
+		}
+		eq := strEq(f.name, name)
+		if c.s.branch(c.w, eq) {
+			return i
+		}
+	}
+	return -1
+}
+
+func (e *Env) symNow(c *callCtx) *Term {
+	if e.lastNow == nil {
+		name := c.s.freshName(fmt.Sprintf("now%d", e.clockN))
+		e.clockN++
+		v := mkVar(name, SInt)
+		c.s.inputs = append(c.s.inputs, InputRec{Name: name, Kind: "lia", Vars: []string{name}})
+		if !c.s.assume(c.w, mkAndB(mkCmp(OILe, mkIntC(1<<30), v), mkCmp(OILt, v, mkIntC(1<<40)))) {
+			c.s.finish("INFEASIBLE", "")
+		}
+		e.lastNow = v
+	}
+	return e.lastNow.(*Term)
 }
 
 func (c *callCtx) concreteStr(i int) string {
